@@ -27,7 +27,7 @@ RULE = ("worlds of 3-5 interfaces, 2-3 classes, 3 instances (some directly provi
         "groups: for one key (registry, arity 0-3 objects or bare specifications, provided, name) EVERY entry point "
         "(lookup for 4 names, lookup1, queryAdapter, adapter_hook, queryMultiAdapter, lookupAll, names, subscriptions, "
         "subscribers, handlers, truthy and falsy non-string names (42, b'', 0, (), None, ...) on every path) in random order from the cold cache and again in another "
-        "random order from the warm cache; with probability 0.6 per round a MUTATION block: a registration / subscription in the registry or in a registry above it that hits for one key, one warm call through ONE entry point (each of the nine), a mutation of the registry holding it (a verifying sub-registry is not told), the SAME entry point again first, then the whole group; factories return None, FALSY non-None results (0, (), '', 0.0, an empty container-like object) or numbers; with probability 0.4 per round a DYNAMIC block: registrations that hit for one key, exactly one warm call through one entry point (each of the nine in turn), an in-place change of a class declaration the key depends on (classImplements / classImplementsFirst / classImplementsOnly on the class of the object, of a base class, of the class behind a super proxy), then every entry point for the same key; a case is non-trivial when some lookup in it found a factory; distinct = "
+        "random order from the warm cache; with probability 0.6 per round a MUTATION block: a registration / subscription in the registry or in a registry above it that hits for one key, one warm call through ONE entry point (each of the nine), a mutation of the registry holding it (a verifying sub-registry is not told), the SAME entry point again first, then the whole group; every group also repeats five of its calls with arguments passed by keyword (any split, default possibly omitted); factories return None, FALSY non-None results (0, (), '', 0.0, an empty container-like object) or numbers; with probability 0.4 per round a DYNAMIC block: registrations that hit for one key, exactly one warm call through one entry point (each of the nine in turn), an in-place change of a class declaration the key depends on (classImplements / classImplementsFirst / classImplementsOnly on the class of the object, of a base class, of the class behind a super proxy), then every entry point for the same key; a case is non-trivial when some lookup in it found a factory; distinct = "
         "distinct (flavour, arities, first entry point of each group) signature")
 TRUSTED_BASE = ["the cache layer Model/Lookup.v (shared) and Model/CLookup.v are proved equal, on every run, to kernels regenerated "
                 "from adapter.py (LookupBase, AdapterLookupBase) and from the C functions _getcache/_lookup/_lookup1/"
@@ -48,6 +48,8 @@ ASSUMPTIONS = ["the uncached computations are deterministic functions of the reg
                "by entry-point calls since the last changed()"]
 
 NAMES = [0, 0, 0, 1, 2]
+KW_ARITY = {"lookup": "rpnd", "lookup1": "rpnd", "queryAdapter": "opnd", "adapter_hook": "pond", "queryMultiAdapter": "opnd",
+            "lookupAll": "rp", "names": "rp", "subscriptions": "rp", "subscribers": "op"}
 # stand-ins for non-string names (harness/drivers/c08_driver.py NONSTRINGS); the model has one NotAString
 TRUTHY_NONSTR = ["X", "X4"]          # 42, b"n1"
 FALSY_NONSTR = ["X0", "X1", "X2", "X3", "X5"]   # b"", 0, (), None, 0.0
@@ -216,9 +218,15 @@ def gen_ops(rng, world, ifaces, classes):
                 if len(objs) == 1:
                     calls += [["queryAdapter", r, objs[0], p, x], ["adapter_hook", r, objs[0], p, x]]
                 calls.append(["queryMultiAdapter", r, objs, p, x])
-        cold = list(calls)
+        # the same calls with arguments passed BY KEYWORD (the first [pos] positionally), default possibly left out:
+        # must answer like the positional spelling
+        def kw(call):
+            n = len(KW_ARITY[call[0]])
+            return list(call) + [{"pos": rng.randrange(n), "nodefault": n == 4 and rng.random() < 0.3}]
+
+        cold = list(calls) + [kw(c) for c in rng.sample(calls, min(5, len(calls)))]
         rng.shuffle(cold)
-        warm = list(calls)
+        warm = list(calls) + [kw(c) for c in rng.sample(calls, min(5, len(calls)))]
         rng.shuffle(warm)
         return cold + warm
 
@@ -339,7 +347,7 @@ def gen_ops(rng, world, ifaces, classes):
 def generate(run, tier):
     rng = run.rng("gen")
     cases = []
-    for _ in range(80 if tier == "quick" else 1000):
+    for _ in range(64 if tier == "quick" else 900):
         world, ifaces, classes = RC.gen_world(rng, n_ifaces=rng.choice([3, 4, 5]), n_classes=rng.choice([2, 3]),
                                               n_objects=3)
         _add_supers(rng, world, classes)
@@ -361,6 +369,9 @@ def coq_case(case, obs, mode):
             chunks.append(cur)
             cur = []
         else:
+            # the keyword spelling of a call is the same model operation
+            if isinstance(op[-1], dict):
+                op = op[:-1]
             # every non-string stand-in is the model's NotAString (RC.c_name_arg knows "X")
             cur.append([("X" if isinstance(x, str) and x.startswith("X") and i == 4 else x) for i, x in enumerate(op)])
     chunks.append(cur)
